@@ -31,7 +31,7 @@ def kind_ok(kind, edges, starts):
     return len(starts) <= 1
 
 
-def shape_failures(op, ref, want_det, want_eps_free):
+def shape_failures(op, ref, want_det, want_eps_free, tags=()):
     fails = []
     if want_eps_free and any(ref.eps.values()):
         fails.append({"kind": "shape", "op": op, "detail": "epsilon transition in result"})
@@ -121,10 +121,28 @@ sparse_canonical = enc.sparse_canonical
 # ----------------------------------------------------------------------------------------
 # structural transformations
 
+def label_tags(labels):
+    """Input-class tags: state labels that collide under the library's merged-state naming scheme."""
+    if not labels:
+        return []
+    tags = []
+    strs = [str(x) for x in labels]
+    if len(set(strs)) < len(set(map(repr, labels))):
+        tags.append("labels_equal_under_str")
+    if any(";" in x for x in strs):
+        tags.append("label_contains_merge_separator")
+    if any(x == "TRASH" for x in strs):
+        tags.append("label_TRASH")
+    if any(x == "" for x in strs):
+        tags.append("label_empty_string")
+    return tags
+
+
 def _structural_oracle(args, obs):
     kind, n, k, edges, starts, finals, labels, order = args
     ref = enc.ref_enfa(n, edges, starts, finals, labels=labels)
     fails = []
+    ltags = label_tags(labels)
     for op, res in obs:
         if res[0] == "exc":
             fails.append(chx.exc_failure(op, res, cls=CLASS_NAMES[kind]))
@@ -132,7 +150,7 @@ def _structural_oracle(args, obs):
         got = O.extract(res[1])
         eq, wit = O.equivalent(ref, got)
         if not eq:
-            fails.append({"kind": "language", "op": op, "cls": CLASS_NAMES[kind],
+            fails.append({"kind": "language", "op": op, "cls": CLASS_NAMES[kind], "tags": ltags,
                           "detail": "differs on %r" % (wit,), "result": got.describe()})
         if op in ("to_deterministic", "minimize"):
             fails += shape_failures(op, got, True, True)
@@ -168,7 +186,7 @@ def _structural(cond, raw, kd, n, k, edges, st, fi, labels=None, order=None):
 def c01_structural_dense(kind: int, bits: B8, starts: int, finals: int) -> bool:
     """
     pre: 0 <= kind < 3 and 0 <= starts < 4 and 0 <= finals < 4
-    pre: pinned(kind=kind, starts=starts, finals=finals, b0=bits[0], b1=bits[1])
+    pre: pinned(kind=kind, starts=starts, finals=finals, b0=bits[0], b1=bits[1], b2=bits[2])
     post: _
     """
     edges = enc.decode_enfa_dense(bits, 2, 1)
@@ -232,8 +250,9 @@ def c01_names(l0: int, l1: int, l2: int, bits: B8, starts: int, finals: int, ext
 
 def _shards_accepts_dense(tier):
     if tier == "quick":
-        # quick: two pinned edge bits off -> 64 edge sets; all masks; all words
-        return product_pins(kind=[0, 1, 2], starts=[1, 2, 3], finals=[1, 2], b0=[False], b1=[False, True])
+        # quick: edge (0,eps,0) absent; non-empty masks; all words
+        return product_pins(kind=[0], starts=[1, 3], finals=[2, 3], b0=[False], b1=[False, True]) + \
+            product_pins(kind=[1, 2], starts=[1], finals=[2, 3], b0=[False], b1=[False])
     return product_pins(kind=[0, 1, 2], starts=[0, 1, 2, 3], b0=[False, True], b1=[False, True])
 
 
@@ -242,7 +261,11 @@ def _shards_accepts_sparse(tier):
 
 
 def _shards_structural_dense(tier):
-    return product_pins(kind=[0, 1, 2], starts=[0, 1, 2, 3], b0=[False, True], b1=[False, True])
+    # NFA / DFA classes: the eps bits must be off anyway (everything else is assumed away)
+    rest = product_pins(kind=[1, 2], starts=[0, 1, 2, 3], b0=[False], b1=[False], b2=[False, True])
+    if tier == "quick":
+        return product_pins(kind=[0], starts=[1, 2, 3], b0=[False, True], b1=[False, True], b2=[False, True]) + rest
+    return product_pins(kind=[0], starts=[0, 1, 2, 3], b0=[False, True], b1=[False, True], b2=[False, True]) + rest
 
 
 def _shards_structural_sparse(tier):
@@ -265,8 +288,8 @@ FUNCS = ["EpsilonNFA.accepts", "NondeterministicFiniteAutomaton.accepts",
 
 CONDS = [
     Cond("C01", c01_accepts_dense, _shards_accepts_dense,
-         {"quick": "all eps-NFA/NFA/DFA with 2 states over {a} (edge (0,eps,0) absent; non-empty start and "
-                   "final sets) x all words of length <=2 over {a, z(outside alphabet), 'epsilon' (eps-NFA only)}",
+         {"quick": "eps-NFA with 2 states over {a} (edge (0,eps,0) absent; starts {0}/{0,1}; finals {1}/{0,1}) and "
+                   "NFA/DFA (start {0}) x all words of length <=2 over {a, z(outside alphabet), 'epsilon' (eps-NFA only)}",
           "thorough": "all 2^12 eps-NFA / NFA / DFA with 2 states over {a} x all words of length <=2 over "
                       "{a, z, 'epsilon'}"},
          FUNCS, "automaton has an edge, a start and a final state"),
@@ -275,7 +298,7 @@ CONDS = [
                       "words of length 2-3 over {a,b,z,'epsilon'}"},
          FUNCS, "automaton has an edge, a start and a final state", tiers=("thorough",)),
     Cond("C01", c01_structural_dense, _shards_structural_dense,
-         {"quick": "all 2^12 automata with 2 states over {a} (per class: valid ones)",
+         {"quick": "all automata with 2 states over {a} and a start state (eps-NFA: 3072; NFA/DFA: all valid ones)",
           "thorough": "same as quick"},
          FUNCS, "automaton has an edge, a start and a final state"),
     Cond("C01", c01_structural_sparse, _shards_structural_sparse,
